@@ -259,12 +259,20 @@ var verifCrashName, verifCrashK, verifCrashDelay, verifCrashSlow = func() (strin
 }()
 var verifCrashHits int64
 
+// VERIF_CRASH_ARM=<path>: hits are counted only once this file exists (the harness arms the point in the middle of a run)
+var verifCrashArm = os.Getenv("VERIF_CRASH_ARM")
+
 // verifCrash kills the process (exit status 137, nothing flushed) at the k-th hit of the named point; with a
 // delay the goroutine first sleeps (a slow step) while the others keep running; with "slow" it only sleeps
 // (the step is slow, the process is killed from outside later).
 func verifCrash(name string) {
 	if verifCrashName == "" || name != verifCrashName {
 		return
+	}
+	if verifCrashArm != "" {
+		if _, err := os.Stat(verifCrashArm); err != nil {
+			return
+		}
 	}
 	if atomic.AddInt64(&verifCrashHits, 1) == verifCrashK {
 		if verifCrashDelay > 0 {
